@@ -94,7 +94,7 @@ def chain_configs(tier, deep=False):
         tr = env_rotate()
         out.append(kdriver.Config("chain-N3", 3, [], tr[0], 1, edited=True))
         out.append(kdriver.Config("chain-N14-new", 14, "new", tr[1][:2], 1, edited=True))
-        out.append(kdriver.Config("chain-N4-pre2", 4, [kdriver.known_record(tr[2][0], 0), kdriver.known_record(tr[2][1], 1)], tr[2], 1))
+        out.append(kdriver.Config("chain-N4-pre2", 4, [kdriver.known_record(tr[2][0], 0), kdriver.known_record(tr[2][1], 1)], tr[2], 1, tz=kdriver.TZ_EAST))
         # three blocks already there: two removals and an add in one context, with a survivor to be hurt
         out.append(kdriver.Config("chain-N5-pre3", 5, [kdriver.known_record(tr[3][0], 0), kdriver.known_record(tr[3][1], 1),
                                                        kdriver.opaque_record(6)], tr[3], 1))
